@@ -48,10 +48,52 @@ theorem allAttrs_locs (fs : List FS) (vs : List FV) : ∀ a ∈ allAttrs fs vs, 
           | many l => simp [encAttrs] at ha
         | child loc om => cases v <;> simp [encAttrs] at ha
         | kids loc => cases v <;> simp [encAttrs] at ha
+        | text => cases v <;> simp [encAttrs] at ha
       · have := ih vs a ha
         cases f <;> simp [attrLocs, this]
 
 /-! ### children -/
+
+theorem kidsNamed_textKid (loc s : String) : kidsNamed loc (textKid s) = [] := by
+  by_cases h : s = "" <;> simp [textKid, kidsNamed, h]
+
+theorem textOf_append (a b : List Node) : textOf (a ++ b) = textOf a ++ textOf b := by
+  induction a with
+  | nil => simp [textOf]
+  | cons k ks ih => cases k <;> simp [textOf, ih, String.append_assoc]
+
+theorem textOf_leaves (sp loc : String) (l : List String) : textOf (l.map (leaf sp loc)) = "" := by
+  induction l with
+  | nil => simp [textOf]
+  | cons x xs ih => simp [textOf, leaf, ih]
+
+theorem textOf_encKids_nontext (sp : String) (f : FS) (v : FV) (h : f ≠ .text) : textOf (encKids sp f v) = "" := by
+  cases f with
+  | attr sp' l om => cases v <;> simp [encKids, textOf]
+  | child l om =>
+    cases v with
+    | one s => simp only [encKids]; split <;> simp [textOf, leaf]
+    | many x => simp [encKids, textOf]
+  | kids l =>
+    cases v with
+    | one s => simp [encKids, textOf]
+    | many x => simp [encKids, textOf_leaves]
+  | text => exact absurd rfl h
+
+theorem textOf_allKids_notext (sp : String) (fs : List FS) (vs : List FV) (h : textCount fs = 0) :
+    textOf (allKids sp fs vs) = "" := by
+  induction fs generalizing vs with
+  | nil => cases vs <;> simp [allKids, textOf]
+  | cons f fs ih =>
+    cases vs with
+    | nil => simp [allKids, textOf]
+    | cons v vs =>
+      simp only [allKids, textOf_append]
+      cases f with
+      | text => simp [textCount] at h
+      | attr sp' l om => rw [textOf_encKids_nontext _ _ _ (by simp), ih vs (by simpa [textCount] using h)]; rfl
+      | child l om => rw [textOf_encKids_nontext _ _ _ (by simp), ih vs (by simpa [textCount] using h)]; rfl
+      | kids l => rw [textOf_encKids_nontext _ _ _ (by simp), ih vs (by simpa [textCount] using h)]; rfl
 
 theorem kidsNamed_allKids_notin (sp loc : String) (fs : List FS) (vs : List FV) (h : loc ∉ kidLocs fs) :
     kidsNamed loc (allKids sp fs vs) = [] := by
@@ -82,6 +124,9 @@ theorem kidsNamed_allKids_notin (sp loc : String) (fs : List FS) (vs : List FV) 
         | many x =>
           simp only [encKids, Form.kidsNamed_leaves]
           simp [Ne.symm h.1, this]
+      | text =>
+        have := ih vs (by simpa [kidLocs] using h)
+        cases v <;> simp [encKids, kidsNamed, kidsNamed_textKid, this]
 
 theorem kidsNamed_encKids_ne (sp loc : String) (f : FS) (v : FV) (h : ∀ l ∈ kidLocs [f], l ≠ loc) :
     kidsNamed loc (encKids sp f v) = [] := by
@@ -97,6 +142,7 @@ theorem kidsNamed_encKids_ne (sp loc : String) (f : FS) (v : FV) (h : ∀ l ∈ 
     cases v with
     | one s => simp [encKids, kidsNamed]
     | many x => simp [encKids, Form.kidsNamed_leaves, hl]
+  | text => cases v <;> simp [encKids, kidsNamed, kidsNamed_textKid]
 
 /-! ### the record round trip -/
 
@@ -105,7 +151,8 @@ theorem decFS_head (sp : String) (f : FS) (v : FV) (fs : List FS) (vs : List FV)
     (hfit : fitsFS f v = true)
     (hA : (attrLocs (f :: fs)).Nodup) (hK : (kidLocs (f :: fs)).Nodup)
     (hpA : ∀ a ∈ preA, a.name.loc ∉ attrLocs (f :: fs))
-    (hpK : ∀ loc ∈ kidLocs (f :: fs), kidsNamed loc preK = []) :
+    (hpK : ∀ loc ∈ kidLocs (f :: fs), kidsNamed loc preK = [])
+    (hT : textCount (f :: fs) ≤ 1) (hpT : textCount (f :: fs) ≥ 1 → textOf preK = "") :
     decFS (preA ++ (encAttrs f v ++ allAttrs fs vs)) (preK ++ (encKids sp f v ++ allKids sp fs vs)) f = v := by
   cases f with
   | attr sp' loc om =>
@@ -144,22 +191,31 @@ theorem decFS_head (sp : String) (f : FS) (v : FV) (fs : List FS) (vs : List FV)
       simp only [decFS, Form.kidsNamed_append]
       rw [hpK loc (by simp [kidLocs]), kidsNamed_allKids_notin sp loc fs vs hK.1]
       simp [encKids, Form.kidsNamed_leaves, Form.textOf_textKid, Function.comp_def]
+  | text =>
+    cases v with
+    | many l => simp [fitsFS] at hfit
+    | one s =>
+      have h0 : textCount fs = 0 := by simp only [textCount] at hT; omega
+      simp only [decFS, encKids, textOf_append, Form.textOf_textKid]
+      rw [hpT (by simp [textCount]), textOf_allKids_notext sp fs vs h0]
+      simp
 
 theorem decFS_rest (sp : String) : ∀ (fs : List FS) (vs : List FV) (preA : List Attr) (preK : List Node),
     wellTyped fs vs = true → (attrLocs fs).Nodup → (kidLocs fs).Nodup →
     (∀ a ∈ preA, a.name.loc ∉ attrLocs fs) → (∀ loc ∈ kidLocs fs, kidsNamed loc preK = []) →
+    textCount fs ≤ 1 → (textCount fs ≥ 1 → textOf preK = "") →
     fs.map (decFS (preA ++ allAttrs fs vs) (preK ++ allKids sp fs vs)) = vs := by
   intro fs
   induction fs with
   | nil => intro vs _ _ h; cases vs <;> simp [wellTyped] at h ⊢
   | cons f fs ih =>
-    intro vs preA preK hw hA hK hpA hpK
+    intro vs preA preK hw hA hK hpA hpK hT hpT
     cases vs with
     | nil => simp [wellTyped] at hw
     | cons v vs =>
       simp only [wellTyped, Bool.and_eq_true] at hw
       simp only [List.map_cons, allAttrs, allKids]
-      rw [decFS_head sp f v fs vs preA preK hw.1 hA hK hpA hpK]
+      rw [decFS_head sp f v fs vs preA preK hw.1 hA hK hpA hpK hT hpT]
       congr 1
       have hA' : (attrLocs fs).Nodup := by
         cases f <;> simp_all [attrLocs]
@@ -184,7 +240,8 @@ theorem decFS_rest (sp : String) : ∀ (fs : List FS) (vs : List FV) (preA : Lis
                   exact hA.1
               | many l => simp [encAttrs] at ha
             | child loc om => cases v <;> simp [encAttrs] at ha
-            | kids loc => cases v <;> simp [encAttrs] at ha)
+            | kids loc => cases v <;> simp [encAttrs] at ha
+            | text => cases v <;> simp [encAttrs] at ha)
         (by
           intro loc hloc
           rw [Form.kidsNamed_append, hpK loc (by cases f <;> simp_all [kidLocs])]
@@ -199,17 +256,24 @@ theorem decFS_rest (sp : String) : ∀ (fs : List FS) (vs : List FV) (preA : Lis
             simp only [kidLocs, List.nodup_cons] at hK; exact hK.1 hloc
           | kids l' =>
             simp only [kidLocs, List.mem_singleton] at hl; subst hl
-            simp only [kidLocs, List.nodup_cons] at hK; exact hK.1 hloc)
+            simp only [kidLocs, List.nodup_cons] at hK; exact hK.1 hloc
+          | text => simp [kidLocs] at hl)
+        (by cases f <;> simp only [textCount] at hT ⊢ <;> omega)
+        (by
+          intro hge
+          have hf : f ≠ FS.text := by
+            intro hf; subst hf; simp only [textCount] at hT; omega
+          have hp : textOf preK = "" := hpT (by cases f <;> simp only [textCount] at hge ⊢ <;> omega)
+          rw [textOf_append, hp, textOf_encKids_nontext sp f v hf]; rfl)
       simpa [List.append_assoc] using this
 
 theorem decRec_encRec (s : Schema) (vs : List FV) (hok : s.ok = true) (hw : wellTyped s.fields vs = true) :
     decRec s (encRec s vs) = some vs := by
-  simp only [Schema.ok, Bool.and_eq_true, List.nodup_iff_count, decide_eq_true_eq] at hok
-  have hA : (attrLocs s.fields).Nodup := by
-    have := hok.1; simpa [List.nodup_iff_count] using this
-  have hK : (kidLocs s.fields).Nodup := by
-    have := hok.2; simpa [List.nodup_iff_count] using this
-  have := decFS_rest s.root.space s.fields vs [] [] hw hA hK (by simp) (by simp [kidsNamed])
+  simp only [Schema.ok, Bool.and_eq_true, decide_eq_true_eq] at hok
+  have hA : (attrLocs s.fields).Nodup := hok.1.1
+  have hK : (kidLocs s.fields).Nodup := hok.1.2
+  have := decFS_rest s.root.space s.fields vs [] [] hw hA hK (by simp) (by simp [kidsNamed]) hok.2
+    (by intro _; simp [textOf])
   simp only [List.nil_append] at this
   simp [decRec, encRec, this]
 
